@@ -1457,3 +1457,102 @@ Proof.
   intros H1 H2 H3 H4 H5 H6 H7 H8 H9 H10 H11.
   destruct (contract_unit_ok g rg p a maxc minc ec H1 H2 H3 H4 H5 H6 H7 H8 H9 H10 H11) as (W & M & _). exact (conj W M).
 Qed.
+
+(* ====================================================================================== *)
+(* Assets on a coarser frequency of their own: one variable per coarse step, delivered into the minor steps of the coarse step in
+   proportion to their length (assets.py:127-153).  Generic: whatever the asset realises on its coarse grid, the problem with the
+   mapping extended to the minor grid realises the same object with the flows spread over the minor steps. *)
+Lemma index_of_spec (x : nat) : forall (l : list nat) i, index_of x l = Some i -> (i < List.length l)%nat /\ nth i l 0%nat = x.
+Proof.
+  induction l as [|a l IH]; intros i H; [discriminate|]. cbn [index_of] in H. destruct (Nat.eqb_spec a x) as [E|E].
+  - inversion H; subst. cbn. split; [lia|reflexivity].
+  - destruct (index_of x l) as [j|] eqn:Ej; [|discriminate]. inversion H; subst. destruct (IH j eq_refl) as [A B]. cbn. split; [lia|exact B].
+Qed.
+Lemma NoDup_nth_eq (l : list nat) i j : NoDup l -> (i < List.length l)%nat -> (j < List.length l)%nat -> nth i l 0%nat = nth j l 0%nat -> i = j.
+Proof. intros H Hi Hj E. apply (proj1 (NoDup_nth l 0%nat) H i j Hi Hj E). Qed.
+
+Lemma qsum_one (F : nat -> Q) n j0 : (j0 < n)%nat -> (forall j, (j < n)%nat -> j <> j0 -> F j == 0) ->
+  qsum (map F (seq 0 n)) == F j0.
+Proof.
+  intros Hj H. assert (G : forall m s, (s <= j0 < s + m)%nat -> (forall j, (s <= j < s + m)%nat -> j <> j0 -> F j == 0) ->
+                       qsum (map F (seq s m)) == F j0).
+  { induction m as [|m IH]; intros s Hs Hz; [lia|]. cbn [seq map qsum].
+    destruct (Nat.eq_dec s j0) as [->|Hne].
+    - assert (Z : qsum (map F (seq (Datatypes.S j0) m)) == 0).
+      { apply qsum_zero. intros j Hin. apply in_seq in Hin. apply Hz; lia. }
+      rewrite Z. ring.
+    - rewrite (Hz s) by lia. rewrite (IH (Datatypes.S s)); [ring|lia|]. intros j Hj2 Hn. apply Hz; lia. }
+  apply (G n 0%nat); [lia|]. intros j Hj2 Hn. apply H; lia.
+Qed.
+
+(* weight of minor step t within coarse step k *)
+Definition minor_w (gdt : vec) (rg : rgrid) (groups : list (list nat)) (k t : nat) : Q :=
+  qsum (map (fun t' => if Nat.eqb t' t then nth t' gdt 0 / nth k (rg_dt rg) 0 else 0) (nth k groups [])).
+
+Definition tb_coarse (S : tb) (gdt : vec) (rg : rgrid) (groups : list (list nat)) : tb :=
+  {| tb_adm := tb_adm S; tb_cost := tb_cost S;
+     tb_flow := fun y n t => qsum (map (fun k => minor_w gdt rg groups k t * tb_flow S y n (nth k (rg_I rg) 0%nat)) (seq 0 (rg_T rg))) |}.
+
+Definition row_val (r : mrow) (x : vec) (a n : string) : Q :=
+  if String.eqb (m_asset r) a && is_d r && at_node n r then nth (m_var r) x 0 * m_factor r else 0.
+
+Lemma dispatch_out_cons r mp x a n t :
+  dispatch_out (r :: mp) x a n t == (if Nat.eqb (m_step r) t then row_val r x a n else 0) + dispatch_out mp x a n t.
+Proof.
+  unfold dispatch_out, row_val, sel. cbn [filter].
+  destruct (String.eqb (m_asset r) a); destruct (is_d r); destruct (at_node n r); destruct (Nat.eqb (m_step r) t); cbn [andb map qsum]; ring.
+Qed.
+
+Lemma minor_block_dispatch gdt rg groups im r x a n t :
+  dispatch_out (map (fun t' => Build_mrow (m_var r) (m_asset r) (m_node r) (m_type r) t'
+                        (Qred (nth t' gdt 0 / nth im (rg_dt rg) 0 * m_factor r)) (m_name r) (m_bool r)) (nth im groups [])) x a n t
+  == row_val r x a n * minor_w gdt rg groups im t.
+Proof.
+  unfold minor_w. induction (nth im groups []) as [|t' grp IH]; [cbn; ring|].
+  cbn [map]. rewrite dispatch_out_cons, IH. cbn [map qsum]. unfold row_val at 1. unfold is_d, at_node. cbn [m_asset m_type m_node m_step m_var m_factor].
+  fold (is_d r). fold (at_node n r). unfold row_val.
+  destruct (String.eqb (m_asset r) a && is_d r && at_node n r); destruct (Nat.eqb t' t); rewrite ?Qred_correct; ring.
+Qed.
+
+Lemma extend_minor_cons gdt rg groups r mp : rg_minor rg = Some groups ->
+  extend_minor gdt rg (r :: mp) =
+  match extend_minor gdt rg mp, index_of (m_step r) (rg_I rg) with
+  | Some rest, Some im => Some (map (fun t => Build_mrow (m_var r) (m_asset r) (m_node r) (m_type r) t
+                                  (Qred (nth t gdt 0 / nth im (rg_dt rg) 0 * m_factor r)) (m_name r) (m_bool r)) (nth im groups []) ++ rest)
+  | _, _ => None end.
+Proof. intros Hm. unfold extend_minor. rewrite Hm. reflexivity. Qed.
+
+Lemma coarse_dispatch gdt rg groups : rg_minor rg = Some groups -> NoDup (rg_I rg) ->
+  forall mp mp' x a n t, extend_minor gdt rg mp = Some mp' ->
+  dispatch_out mp' x a n t == qsum (map (fun k => minor_w gdt rg groups k t * dispatch_out mp x a n (nth k (rg_I rg) 0%nat)) (seq 0 (rg_T rg))).
+Proof.
+  intros Hm Hnd. induction mp as [|r mp IH]; intros mp' x a n t H.
+  - unfold extend_minor in H. rewrite Hm in H. cbn in H. inversion H. cbn. symmetry. apply qsum_zero. intros k _. cbn. ring.
+  - rewrite (extend_minor_cons gdt rg groups r mp Hm) in H. destruct (extend_minor gdt rg mp) as [rest|] eqn:Er; [|discriminate].
+    destruct (index_of (m_step r) (rg_I rg)) as [im|] eqn:Ei; [|discriminate]. inversion H; subst mp'. clear H.
+    rewrite dispatch_out_app. rewrite (minor_block_dispatch gdt rg groups im r x a n t). rewrite (IH rest x a n t eq_refl).
+    destruct (index_of_spec _ _ _ Ei) as [Lim Eim].
+    (* the row counts at the coarse step it is labelled with *)
+    assert (R : qsum (map (fun k => minor_w gdt rg groups k t * dispatch_out (r :: mp) x a n (nth k (rg_I rg) 0%nat)) (seq 0 (rg_T rg))) ==
+                row_val r x a n * minor_w gdt rg groups im t +
+                qsum (map (fun k => minor_w gdt rg groups k t * dispatch_out mp x a n (nth k (rg_I rg) 0%nat)) (seq 0 (rg_T rg)))).
+    { transitivity (qsum (map (fun k => minor_w gdt rg groups k t * (if Nat.eqb (m_step r) (nth k (rg_I rg) 0%nat) then row_val r x a n else 0)) (seq 0 (rg_T rg))) +
+                    qsum (map (fun k => minor_w gdt rg groups k t * dispatch_out mp x a n (nth k (rg_I rg) 0%nat)) (seq 0 (rg_T rg)))).
+      - rewrite <- qsum_map_add. apply qsum_map_ext. intros k _. rewrite dispatch_out_cons. ring.
+      - apply Qplus_inj_r. rewrite (qsum_one _ _ im Lim).
+        + rewrite Eim, Nat.eqb_refl. ring.
+        + intros k Hk Hne. destruct (Nat.eqb_spec (m_step r) (nth k (rg_I rg) 0%nat)) as [E2|_]; [|ring].
+          exfalso. apply Hne. apply (NoDup_nth_eq (rg_I rg) k im Hnd Hk Lim). rewrite Eim. symmetry. exact E2. }
+    rewrite R. reflexivity.
+Qed.
+
+Theorem coarse_realises nm a dec S gdt rg groups mp' :
+  realises nm a dec S -> rg_minor rg = Some groups -> NoDup (rg_I rg) -> extend_minor gdt rg (ap_map a) = Some mp' ->
+  realises nm {| ap_lp := ap_lp a; ap_map := mp' |} dec (tb_coarse S gdt rg groups).
+Proof.
+  intros [R1 R2] Hm Hnd He. split; cbn [ap_lp ap_map tb_coarse tb_adm tb_cost tb_flow].
+  - intros x Hf. destruct (R1 x Hf) as (A & C & F). split; [exact A|split; [exact C|]].
+    intros n t. rewrite (coarse_dispatch gdt rg groups Hm Hnd _ _ x nm n t He). apply qsum_map_ext. intros k _. rewrite F. reflexivity.
+  - intros y Ay. destruct (R2 y Ay) as (x & Hf & C & F & D). exists x. split; [exact Hf|split; [exact C|split; [|exact D]]].
+    intros n t. rewrite (coarse_dispatch gdt rg groups Hm Hnd _ _ x nm n t He). apply qsum_map_ext. intros k _. rewrite F. reflexivity.
+Qed.
